@@ -61,10 +61,10 @@ class C15(PropBase):
             ops.append({'op': 'process', 'i': 0})
             ops.append({'op': 'tick', 'dt': rng.choice([0, 1000, SLOT - 1, SLOT + 1, wns // 7, wns // 2, wns - SLOT, wns, wns + 1, 3 * wns])})
         for _ in range(nframes + 4):
-            ops.append({'op': 'frame', 'i': 0, 'id': fid, 'ext': ext, 'data': data})
-            ops.append({'op': 'process', 'i': 0})
-            ops.append({'op': 'tick', 'dt': wns + SLOT + 1})
-        ops.append({'op': 'process', 'i': 0})
+            ops.append({'op': 'frame', 'i': 0, 'id': fid, 'ext': ext, 'data': data, 'keep': True})
+            ops.append({'op': 'process', 'i': 0, 'keep': True})
+            ops.append({'op': 'tick', 'dt': wns + SLOT + 1, 'keep': True})
+        ops.append({'op': 'process', 'i': 0, 'keep': True})
         return {'ops': ops}
 
     def project(self, op_line, out_line):
